@@ -103,6 +103,13 @@ func TestVerifDriver(t *testing.T) {
 		}
 		w := strings.Fields(line)
 		res := "bad-op"
+		// an operation still running after 120 s is wedged: say so and stop instead of sitting out
+		// the test timeout (the main goroutine is stuck, so nobody else writes to `out`)
+		wedged := time.AfterFunc(120*time.Second, func() {
+			fmt.Fprintln(out, "hang")
+			out.Flush()
+			os.Exit(3)
+		})
 		if len(w) >= 2 && w[0] == "ft" {
 			res = ftOp(w[1:])
 		} else if len(w) >= 2 && w[0] == "px" {
@@ -268,6 +275,7 @@ func TestVerifDriver(t *testing.T) {
 				}
 			}
 		}
+		wedged.Stop()
 		fmt.Fprintln(out, res)
 	}
 }
